@@ -19,10 +19,23 @@
 //	adv <ns>                                   advance the clock (first adv creates the ticker first)
 //	reorg <epoch>                              HandleChainReorgEvent
 //
+// head-event path (cfg takes a fifth field <flags>: 1 FetchAttOnBlock, 2 FetchAttOnBlockWithDelay, 4 no fetch-only
+// function registered). With a flag on the scheduler is given a clock whose After (only called by
+// waitForEarlyFetchOrTimeout) parks the attester trigger goroutine under the harness' control; the deadline is
+// reconstructed from the duration (the code computes it with the wall clock: time.Until).
+//
+//	advl <ns>                                  advance the clock; attester triggers that become due stay parked
+//	fire <slot>                                the parked attester trigger of the slot proceeds (if due)
+//	head <slot> <root> <addr>                  HandleHeadEvent; output F<slot>@<root>/<addr>{defs} per FetchOnly call
+//	getdef <slot> <type>                       GetDutyDefinition
+//	probe <slot> <type> [<k>]                  GetDutyDefinition is called from inside the (k+1)-th attester-duties call from now
+//	                                           (while resolveDuties runs); its outcome follows that tick as P[...]
+//
 // adv output: "t<slot>[<type>@<notBefore>{<pk>=<def>;...},...] ... | re=<resolvedEpoch> nd=<duties>/<pairs> ne=<byEpoch entries>"
 package main
 
 import (
+	"bytes"
 	"context"
 	"encoding/binary"
 	"errors"
@@ -193,10 +206,48 @@ type trig struct {
 	nb   int64 // ns since genesis
 }
 
+// parkedTrig is an attester trigger goroutine waiting in waitForEarlyFetchOrTimeout.
+type parkedTrig struct {
+	slot  uint64
+	dl    int64 // reconstructed deadline, ns since genesis
+	ch    chan time.Time
+	exp   map[uint64][]item // completeness expectation recorded at the tick
+	expOK bool
+}
+
+// note is something seen on a scheduler goroutine, reported by the harness goroutine afterwards.
+type note struct{ sig, descr, count string }
+
+// fetchRec is one call of the registered fetch-only function.
+type fetchRec struct {
+	duty core.Duty
+	defs core.DutyDefinitionSet
+	addr string
+	root eth2p0.Root
+}
+
+// probeState is a GetDutyDefinition call made from inside a beacon node callback.
+type probeState struct {
+	goid   int64
+	cancel context.CancelFunc
+	res    chan string
+	out    string
+	done   bool
+}
+
+// wclock is the scheduler's clock with a flag on: the fake clock, except that After parks the caller.
+type wclock struct {
+	clockwork.Clock
+	e *episode
+}
+
+func (w wclock) After(d time.Duration) <-chan time.Time { return w.e.parkAfter(d) }
+
 // ---------- episode ----------
 
 type episode struct {
 	cancel  context.CancelFunc
+	ctx     context.Context
 	clock   *clockwork.FakeClock
 	genesis time.Time
 	sched   *scheduler.Scheduler
@@ -206,6 +257,21 @@ type episode struct {
 	dur     time.Duration
 	reorgOn bool
 	sc      *script
+
+	// head-event path
+	flA, flD, noReg bool
+	pend            []*parkedTrig
+	tBefore         time.Time
+	curFire         *parkedTrig
+	fetches         []fetchRec
+	base0           int
+	probeArmed      *core.Duty
+	probeSkip       int
+	probe           *probeState
+	probeOut        string
+	notes           []note
+	fetched         map[uint64]bool // slots with an early fetch since the last effective reorg
+	deliveredAtt    map[uint64]bool // slots whose attester duty went through the wait and was delivered
 
 	mu     sync.Mutex
 	trigs  []trig
@@ -249,17 +315,22 @@ func baseMock(spe int, durMs int64) beaconmock.Mock {
 	return m
 }
 
-func newEpisode(spe int, durMs int64, startNs int64, reorgOn bool) *episode {
+func newEpisode(spe int, durMs int64, startNs int64, reorgOn bool, flags int) *episode {
 	ctx, cancel := context.WithCancel(context.Background())
 	e := &episode{cancel: cancel, genesis: genesis, spe: uint64(spe), dur: time.Duration(durMs) * time.Millisecond,
 		reorgOn: reorgOn, sc: newScript(), delays: map[core.Duty]time.Time{}, seen: map[core.Duty]bool{},
-		res: map[uint64]*resolved{}, unstable: map[uint64]bool{}, lastTick: -1}
+		res: map[uint64]*resolved{}, unstable: map[uint64]bool{}, lastTick: -1,
+		flA: flags&1 != 0, flD: flags&2 != 0, noReg: flags&4 != 0, fetched: map[uint64]bool{}, deliveredAtt: map[uint64]bool{}}
 	e.clock = clockwork.NewFakeClockAt(genesis.Add(time.Duration(startNs)))
 	cfg := featureset.Config{MinStatus: "stable"}
-	if reorgOn {
-		cfg.Enabled = []string{string(featureset.SSEReorgDuties)}
-	} else {
-		cfg.Disabled = []string{string(featureset.SSEReorgDuties)}
+	// featureset keeps what an earlier Init enabled: every feature the driver touches is named each time
+	for f, on := range map[featureset.Feature]bool{featureset.SSEReorgDuties: reorgOn, featureset.FetchAttOnBlock: e.flA,
+		featureset.FetchAttOnBlockWithDelay: e.flD} {
+		if on {
+			cfg.Enabled = append(cfg.Enabled, string(f))
+		} else {
+			cfg.Disabled = append(cfg.Disabled, string(f))
+		}
 	}
 	hx.Must(featureset.Init(ctx, cfg))
 
@@ -270,11 +341,18 @@ func newEpisode(spe int, durMs int64, startNs int64, reorgOn bool) *episode {
 	m.CachedSyncCommDutiesFunc = e.bnSync
 	e.mock = m
 
-	s, err := scheduler.NewVerif(e.clock, e.delay, nil, m, false)
+	var sclock clockwork.Clock = e.clock
+	if e.flagsOn() {
+		sclock = wclock{Clock: e.clock, e: e}
+	}
+	s, err := scheduler.NewVerif(sclock, e.delay, nil, m, false)
 	hx.Must(err)
 	s.SubscribeDuties(e.onDuty)
+	if !e.noReg {
+		s.RegisterFetcherFetchOnly(e.onFetchOnly)
+	}
 	e.sched = s
-	_ = ctx
+	e.ctx = ctx
 	return e
 }
 
@@ -288,12 +366,138 @@ func (e *episode) delay(duty core.Duty, deadline time.Time) <-chan time.Time {
 	return ch
 }
 
+func (e *episode) flagsOn() bool { return e.flA || e.flD }
+
+// close ends the episode: the ticker goroutine and the parked attester triggers return on the cancelled
+// context; wait for them, so that the next episode counts goroutines from a quiet state.
+func (e *episode) close() {
+	n0 := runtime.NumGoroutine()
+	expect := len(e.pend)
+	if e.ticker != nil {
+		expect++
+	}
+	e.cancel()
+	deadline := time.Now().Add(2 * time.Second)
+	for runtime.NumGoroutine() > n0-expect && time.Now().Before(deadline) {
+		runtime.Gosched()
+		time.Sleep(20 * time.Microsecond)
+	}
+}
+
+func (e *episode) nowNs() int64 { return e.clock.Now().Sub(e.genesis).Nanoseconds() }
+
+// parkAfter is the scheduler clock's After with a flag on. The scheduler calls it with
+// time.Until(slot start + offset): the wall clock is subtracted from an instant of the fake clock's time
+// line, so the deadline is recovered by adding the wall clock again. The true deadline lies between
+// (wall clock when the tick started) + d and (wall clock now) + d; inside that window the value is
+// snapped to the lattice 1/3 slot + k ms (the specified deadline itself if it lies in the window).
+func (e *episode) parkAfter(d time.Duration) <-chan time.Time {
+	t1 := time.Now()
+	e.mu.Lock()
+	defer e.mu.Unlock()
+	p := &parkedTrig{slot: e.curTick, ch: make(chan time.Time, 1)}
+	if !e.inTick {
+		e.notes = append(e.notes, note{sig: "sched:clock_wait_outside_slot_handling", descr: fmt.Sprintf("clock.After(%v) called while no slot is being handled", d)})
+	}
+	slotStart := int64(e.curTick) * e.dur.Nanoseconds()
+	hi := t1.Add(d).Sub(e.genesis).Nanoseconds() - slotStart
+	lo := e.tBefore.Add(d).Sub(e.genesis).Nanoseconds() - slotStart
+	p.dl = slotStart + e.snap(lo, hi)
+	e.pend = append(e.pend, p)
+	return p.ch
+}
+
+func (e *episode) snap(lo, hi int64) int64 {
+	third := specOffset(core.DutyAttester, e.dur)
+	spec := third
+	if e.flD {
+		spec += 300 * int64(time.Millisecond)
+	}
+	if hi-lo > int64(time.Millisecond) {
+		e.notes = append(e.notes, note{count: "wait:window_wider_than_1ms"})
+	}
+	if lo <= spec && spec <= hi {
+		return spec
+	}
+	const ms = int64(time.Millisecond)
+	k := (lo - third) / ms
+	if (lo-third)%ms > 0 {
+		k++
+	}
+	if c := third + k*ms; c >= lo && c <= hi {
+		return c
+	}
+	e.notes = append(e.notes, note{count: "wait:off_lattice"})
+	return hi
+}
+
+// settle waits until every goroutine spawned by the scheduler has finished or is parked under the harness' control.
+func (e *episode) settle() {
+	deadline := time.Now().Add(10 * time.Second)
+	stable := 0
+	for {
+		e.mu.Lock()
+		np := len(e.pend)
+		e.mu.Unlock()
+		if e.probe != nil && !e.probe.done {
+			np++
+		}
+		if runtime.NumGoroutine() <= e.base0+np {
+			stable++
+			if stable >= 3 {
+				return
+			}
+		} else {
+			stable = 0
+		}
+		if time.Now().After(deadline) {
+			panic("scheduler goroutines did not finish")
+		}
+		runtime.Gosched()
+		if stable == 0 {
+			time.Sleep(20 * time.Microsecond)
+		}
+	}
+}
+
+func (e *episode) flushNotes(run *hx.Run) {
+	e.mu.Lock()
+	notes := e.notes
+	e.notes = nil
+	e.mu.Unlock()
+	for _, n := range notes {
+		if n.count != "" {
+			run.Count(n.count)
+		} else {
+			run.Violate(n.sig, n.descr)
+		}
+	}
+}
+
+// setBase records the number of goroutines that are not the scheduler's (call while nothing is running).
+func (e *episode) setBase() {
+	n := runtime.NumGoroutine() - len(e.pend)
+	if e.probe != nil && !e.probe.done {
+		n--
+	}
+	e.base0 = n
+}
+
+func (e *episode) onFetchOnly(_ context.Context, duty core.Duty, set core.DutyDefinitionSet, addr string, root eth2p0.Root) error {
+	e.mu.Lock()
+	defer e.mu.Unlock()
+	e.fetches = append(e.fetches, fetchRec{duty: duty, defs: set, addr: addr, root: root})
+	return nil
+}
+
 func (e *episode) onDuty(_ context.Context, duty core.Duty, set core.DutyDefinitionSet) error {
 	e.mu.Lock()
 	defer e.mu.Unlock()
 	nb := int64(-1)
 	if t, ok := e.delays[duty]; ok {
 		nb = t.Sub(e.genesis).Nanoseconds()
+	} else if p := e.curFire; p != nil && duty.Slot == p.slot && duty.Type == core.DutyAttester {
+		nb = p.dl
 	}
 	e.trigs = append(e.trigs, trig{duty: duty, defs: set, nb: nb})
 	return nil
@@ -302,6 +506,7 @@ func (e *episode) onDuty(_ context.Context, duty core.Duty, set core.DutyDefinit
 // --- beacon node endpoints (called synchronously from scheduleSlot) ---
 
 func (e *episode) bnValidators(context.Context) (eth2wrap.ActiveValidators, eth2wrap.CompleteValidators, error) {
+	e.closeProbe() // a new resolveDuties invocation starts: the one a probe was made in has ended
 	ses := &session{tick: e.curTick}
 	e.cur = ses
 	e.sessions = append(e.sessions, ses)
@@ -353,6 +558,13 @@ func (e *episode) noteItems(epoch uint64, its []item, slotted bool) {
 
 func (e *episode) bnAttester(_ context.Context, epoch eth2p0.Epoch, _ []eth2p0.ValidatorIndex) (eth2wrap.AttesterDutyWithMeta, error) {
 	ses := e.sessionFor(uint64(epoch))
+	if e.probeArmed != nil && e.probeSkip > 0 {
+		e.probeSkip--
+	} else if e.probeArmed != nil {
+		d := *e.probeArmed
+		e.probeArmed = nil
+		e.probe = e.startGetDef(d)
+	}
 	if pop(&e.sc.failA) {
 		return eth2wrap.AttesterDutyWithMeta{}, errFail
 	}
@@ -455,58 +667,100 @@ func (e *episode) digest() string {
 	for _, l := range sn.DutiesByEpoch {
 		ne += len(l)
 	}
-	return fmt.Sprintf("re=%s nd=%d/%d ne=%d", re, len(sn.Duties), pairs, ne)
+	base := fmt.Sprintf("re=%s nd=%d/%d ne=%d", re, len(sn.Duties), pairs, ne)
+	if !e.flagsOn() {
+		return base
+	}
+	var pd []uint64
+	for _, p := range e.pend {
+		pd = append(pd, p.slot)
+	}
+	sort.Slice(pd, func(i, j int) bool { return pd[i] < pd[j] })
+	return base + " ev=" + u64List(e.sched.EventTriggeredVerif()) + " pd=" + u64List(pd)
+}
+
+func u64List(l []uint64) string {
+	if len(l) == 0 {
+		return "-"
+	}
+	parts := make([]string, len(l))
+	for i, v := range l {
+		parts[i] = strconv.FormatUint(v, 10)
+	}
+	return strings.Join(parts, ",")
+}
+
+func defsStr(set core.DutyDefinitionSet) string {
+	type kv struct {
+		pk uint64
+		s  string
+	}
+	var kvs []kv
+	for pk, d := range set {
+		kvs = append(kvs, kv{corePkID(pk), defStr(d)})
+	}
+	sort.Slice(kvs, func(i, j int) bool { return kvs[i].pk < kvs[j].pk })
+	parts := make([]string, len(kvs))
+	for i, x := range kvs {
+		parts[i] = fmt.Sprintf("%d=%s", x.pk, x.s)
+	}
+	return "{" + strings.Join(parts, ";") + "}"
 }
 
 // ---------- executing ticks ----------
 
 // handle hands one slot received from the real ticker to the real scheduleSlot and waits until all
 // trigger goroutines it spawned have delivered.
-func (e *episode) handle(run *hx.Run, slot core.Slot, base int) string {
+func (e *episode) handle(run *hx.Run, slot core.Slot) string {
 	e.mu.Lock()
 	e.trigs = nil
 	e.delays = map[core.Duty]time.Time{}
+	nPend := len(e.pend)
 	e.mu.Unlock()
 	e.curTick, e.inTick, e.cur = slot.Slot, true, nil
 	firstSession := len(e.sessions)
+	var before scheduler.SnapshotVerif
+	var keysBefore []uint64
+	if e.flagsOn() {
+		before, keysBefore = e.sched.SnapshotVerif(), e.sched.EventTriggeredVerif()
+	}
 
-	e.sched.HandleSlotVerif(context.Background(), slot)
-
-	// expected number of triggers according to the scheduler's own map (used only for waiting)
-	sn := e.sched.SnapshotVerif()
-	e.checkAltered(run, sn)
+	e.tBefore = time.Now()
+	e.sched.HandleSlotVerif(e.ctx, slot)
+	e.settle()
+	// every duty type with a definition set for this slot has a trigger goroutine: each delivers or parks
+	// (the scheduler's own map is used only for waiting)
 	want := 0
-	for d := range sn.Duties {
+	for d := range e.sched.SnapshotVerif().Duties {
 		if d.Slot == slot.Slot {
 			want++
 		}
 	}
-	deadline := time.Now().Add(10 * time.Second)
-	patience := time.Now().Add(300 * time.Millisecond)
-	stable := 0
-	for {
+	for patience := time.Now().Add(300 * time.Millisecond); time.Now().Before(patience); {
 		e.mu.Lock()
-		got := len(e.trigs)
+		got := len(e.trigs) + len(e.pend) - nPend
 		e.mu.Unlock()
-		if runtime.NumGoroutine() <= base && (got >= want || time.Now().After(patience)) {
-			stable++
-			if stable >= 3 {
-				break
-			}
-		} else {
-			stable = 0
+		if got >= want {
+			break
 		}
-		if time.Now().After(deadline) {
-			panic("trigger goroutines did not finish")
-		}
-		runtime.Gosched()
-		if stable == 0 {
-			time.Sleep(20 * time.Microsecond)
-		}
+		time.Sleep(50 * time.Microsecond)
+		e.settle()
+	}
+	probeOut := e.finishProbe()
+	e.flushNotes(run)
+
+	sn := e.sched.SnapshotVerif()
+	e.checkAltered(run, sn)
+	if e.flagsOn() {
+		e.checkBookkeeping(run, before, sn, keysBefore, fmt.Sprintf("tick %d", slot.Slot))
 	}
 	e.inTick = false
 	e.mu.Lock()
 	trigs := append([]trig(nil), e.trigs...)
+	var parkedNow []*parkedTrig
+	if len(e.pend) > nPend {
+		parkedNow = append(parkedNow, e.pend[nPend:]...)
+	}
 	e.mu.Unlock()
 	slotStart := slot.Time.Sub(e.genesis).Nanoseconds()
 	for i := range trigs {
@@ -515,8 +769,11 @@ func (e *episode) handle(run *hx.Run, slot core.Slot, base int) string {
 		}
 	}
 	sort.SliceStable(trigs, func(i, j int) bool { return trigs[i].duty.Type < trigs[j].duty.Type })
+	if len(parkedNow) > 1 {
+		run.Violate("sched:several_triggers_wait_in_one_slot", fmt.Sprintf("%d goroutines wait on the clock for slot %d", len(parkedNow), slot.Slot))
+	}
 
-	e.monitorTick(run, slot, trigs, e.sessions[firstSession:])
+	e.monitorTick(run, slot, trigs, e.sessions[firstSession:], parkedNow)
 
 	parts := make([]string, len(trigs))
 	for i, t := range trigs {
@@ -524,7 +781,51 @@ func (e *episode) handle(run *hx.Run, slot core.Slot, base int) string {
 	}
 	run.Count("tick")
 	run.Count(fmt.Sprintf("tick:triggers=%d", len(trigs)))
-	return fmt.Sprintf("t%d[%s]", slot.Slot, strings.Join(parts, ","))
+	if len(parkedNow) > 0 {
+		run.Count("tick:attester_parked")
+	}
+	res := fmt.Sprintf("t%d[%s]", slot.Slot, strings.Join(parts, ","))
+	if probeOut != "" {
+		res += " P[" + probeOut + "]"
+	}
+	return res
+}
+
+// checkBookkeeping: eventTriggeredAttestations against what the handled slot / reorg event trimmed, judged from
+// the scheduler's own dutiesByEpoch before and after (independent of the model): when the duties filed under an
+// epoch were dropped, no entry up to the end of that epoch may remain; an entry disappears only that way.
+func (e *episode) checkBookkeeping(run *hx.Run, before, after scheduler.SnapshotVerif, keysBefore []uint64, where string) {
+	trimmed, maxT := false, uint64(0)
+	for ep, l := range before.DutiesByEpoch {
+		if len(l) == 0 {
+			continue
+		}
+		if _, ok := after.DutiesByEpoch[ep]; !ok {
+			if !trimmed || ep > maxT {
+				maxT = ep
+			}
+			trimmed = true
+		}
+	}
+	keys := e.sched.EventTriggeredVerif()
+	now := map[uint64]bool{}
+	for _, k := range keys {
+		now[k] = true
+		if trimmed && k < (maxT+1)*e.spe {
+			run.Violate("sched:event_bookkeeping_not_trimmed", fmt.Sprintf("%s dropped the duties of epoch %d but the entry of slot %d remains", where, maxT, k))
+		}
+	}
+	for _, k := range keysBefore {
+		if !now[k] && (!trimmed || k >= (maxT+1)*e.spe) {
+			run.Violate("sched:event_bookkeeping_entry_lost", fmt.Sprintf("%s removed the entry of slot %d although no epoch up to its own was trimmed", where, k))
+		}
+	}
+	if trimmed {
+		run.Count("bookkeeping:trim")
+		if len(keysBefore) > len(keys) {
+			run.Count("bookkeeping:trim_removed_entries")
+		}
+	}
 }
 
 // specOffset is the property's table (not read from the implementation): attester 1/3,
@@ -613,8 +914,85 @@ func (e *episode) expected(ses *session, slot uint64, ty core.DutyType) map[uint
 	return out
 }
 
+// checkTrig evaluates C15 on one delivered definition set (a triggered duty, or with pfx "early_fetch_" the set
+// handed to the fetch-only function): right duty type, not before the offset, every definition an assignment the
+// beacon node gave for that slot and type to an active cluster validator with that pubkey.
+func (e *episode) checkTrig(run *hx.Run, t trig, slotStart int64, pfx string) {
+	kind := kindOf(t.duty.Type)
+	if kind == "" {
+		run.Violate("sched:"+pfx+"unexpected_duty_type", fmt.Sprintf("duty %v triggered", t.duty))
+		return
+	}
+	if t.nb < slotStart+specOffset(t.duty.Type, e.dur) {
+		run.Violate("sched:"+pfx+"before_offset", fmt.Sprintf("duty %v not-before %d < slot start %d + offset %d", t.duty, t.nb, slotStart, specOffset(t.duty.Type, e.dur)))
+	}
+	if len(t.defs) == 0 {
+		run.Violate("sched:"+pfx+"empty_definition_set", fmt.Sprintf("duty %v triggered with an empty set", t.duty))
+	}
+	for pk, d := range t.defs {
+		it, dk := itemOfDef(d)
+		if dk != kind {
+			run.Violate("sched:"+pfx+"unassigned_duty", fmt.Sprintf("duty %v carries a %s definition", t.duty, dk))
+			continue
+		}
+		if corePkID(pk) != it.pk {
+			run.Violate("sched:"+pfx+"defset_differs_from_bn", fmt.Sprintf("duty %v: definition of pubkey %d stored under pubkey %d", t.duty, it.pk, corePkID(pk)))
+		}
+		if kind != "syn" && it.slot != t.duty.Slot {
+			run.Violate("sched:"+pfx+"unassigned_duty", fmt.Sprintf("duty %v carries an assignment for slot %d", t.duty, it.slot))
+		}
+		// justification: some invocation in which the BN gave exactly this assignment and named the
+		// validator as an active cluster validator with this pubkey
+		assigned, cluster, activeOK, pkOK := false, false, false, false
+		for _, ses := range e.sessions {
+			its, ok := ses.itemsOf(kind)
+			if !ok || !ses.hasEpoch {
+				continue
+			}
+			if kind == "syn" && ses.epoch != t.duty.Slot/e.spe {
+				continue
+			}
+			found := false
+			for _, x := range its {
+				if !x.isNil && x == it && e.sameAsBN(d, x) {
+					found = true
+				}
+			}
+			if !found {
+				continue
+			}
+			assigned = true
+			if ses.vals == nil {
+				continue
+			}
+			v, ok := ses.vals[it.vidx]
+			if !ok || v.isNil {
+				continue
+			}
+			cluster = true
+			if _, ok := ses.activeVal(it.vidx); !ok {
+				continue
+			}
+			activeOK = true
+			if v.pk == it.pk {
+				pkOK = true
+			}
+		}
+		switch {
+		case !assigned:
+			run.Violate("sched:"+pfx+"unassigned_duty", fmt.Sprintf("duty %v: definition %s was never given by the beacon node for that slot/type", t.duty, defStr(d)))
+		case !cluster:
+			run.Violate("sched:"+pfx+"non_cluster_validator", fmt.Sprintf("duty %v: validator %d is not a cluster validator", t.duty, it.vidx))
+		case !activeOK:
+			run.Violate("sched:"+pfx+"inactive_validator", fmt.Sprintf("duty %v: validator %d was not active when the duty was resolved", t.duty, it.vidx))
+		case !pkOK:
+			run.Violate("sched:"+pfx+"pubkey_mismatch_accepted", fmt.Sprintf("duty %v: validator %d pubkey differs from the duty's", t.duty, it.vidx))
+		}
+	}
+}
+
 // monitorTick evaluates C15 on what the real scheduler did in this tick.
-func (e *episode) monitorTick(run *hx.Run, slot core.Slot, trigs []trig, newSessions []*session) {
+func (e *episode) monitorTick(run *hx.Run, slot core.Slot, trigs []trig, newSessions []*session, parkedNow []*parkedTrig) {
 	s := slot.Slot
 	epoch := s / e.spe
 	slotStart := slot.Time.Sub(e.genesis).Nanoseconds()
@@ -699,77 +1077,7 @@ func (e *episode) monitorTick(run *hx.Run, slot core.Slot, trigs []trig, newSess
 		if t.duty.Slot != s {
 			run.Violate("sched:duty_of_other_slot", fmt.Sprintf("duty %v triggered at tick %d", t.duty, s))
 		}
-		kind := kindOf(t.duty.Type)
-		if kind == "" {
-			run.Violate("sched:unexpected_duty_type", fmt.Sprintf("duty %v triggered", t.duty))
-			continue
-		}
-		if t.nb < slotStart+specOffset(t.duty.Type, e.dur) {
-			run.Violate("sched:before_offset", fmt.Sprintf("duty %v not-before %d < slot start %d + offset %d", t.duty, t.nb, slotStart, specOffset(t.duty.Type, e.dur)))
-		}
-		if len(t.defs) == 0 {
-			run.Violate("sched:empty_definition_set", fmt.Sprintf("duty %v triggered with an empty set", t.duty))
-		}
-		for pk, d := range t.defs {
-			it, dk := itemOfDef(d)
-			if dk != kind {
-				run.Violate("sched:unassigned_duty", fmt.Sprintf("duty %v carries a %s definition", t.duty, dk))
-				continue
-			}
-			if corePkID(pk) != it.pk {
-				run.Violate("sched:defset_differs_from_bn", fmt.Sprintf("duty %v: definition of pubkey %d stored under pubkey %d", t.duty, it.pk, corePkID(pk)))
-			}
-			if kind != "syn" && it.slot != t.duty.Slot {
-				run.Violate("sched:unassigned_duty", fmt.Sprintf("duty %v carries an assignment for slot %d", t.duty, it.slot))
-			}
-			// justification: some invocation in which the BN gave exactly this assignment and named the
-			// validator as an active cluster validator with this pubkey
-			assigned, cluster, activeOK, pkOK := false, false, false, false
-			for _, ses := range e.sessions {
-				its, ok := ses.itemsOf(kind)
-				if !ok || !ses.hasEpoch {
-					continue
-				}
-				if kind == "syn" && ses.epoch != t.duty.Slot/e.spe {
-					continue
-				}
-				found := false
-				for _, x := range its {
-					if !x.isNil && x == it && e.sameAsBN(d, x) {
-						found = true
-					}
-				}
-				if !found {
-					continue
-				}
-				assigned = true
-				if ses.vals == nil {
-					continue
-				}
-				v, ok := ses.vals[it.vidx]
-				if !ok || v.isNil {
-					continue
-				}
-				cluster = true
-				if _, ok := ses.activeVal(it.vidx); !ok {
-					continue
-				}
-				activeOK = true
-				if v.pk == it.pk {
-					pkOK = true
-				}
-			}
-			switch {
-			case !assigned:
-				run.Violate("sched:unassigned_duty", fmt.Sprintf("duty %v: definition %s was never given by the beacon node for that slot/type", t.duty, defStr(d)))
-			case !cluster:
-				run.Violate("sched:non_cluster_validator", fmt.Sprintf("duty %v: validator %d is not a cluster validator", t.duty, it.vidx))
-			case !activeOK:
-				run.Violate("sched:inactive_validator", fmt.Sprintf("duty %v: validator %d was not active when the duty was resolved", t.duty, it.vidx))
-			case !pkOK:
-				run.Violate("sched:pubkey_mismatch_accepted", fmt.Sprintf("duty %v: validator %d pubkey differs from the duty's", t.duty, it.vidx))
-			}
-		}
+		e.checkTrig(run, t, slotStart, "")
 	}
 	for d := range seenNow {
 		e.seen[d] = true
@@ -787,6 +1095,16 @@ func (e *episode) monitorTick(run *hx.Run, slot core.Slot, trigs []trig, newSess
 				if trigs[i].duty.Type == ty {
 					got = &trigs[i]
 				}
+			}
+			if ty == core.DutyAttester && got == nil && len(parkedNow) > 0 {
+				// the attester trigger waits on the clock (head-event path): its definition set is seen when it is
+				// delivered; the expectation travels with it
+				if len(exp) == 0 {
+					run.Violate("sched:defset_differs_from_bn", fmt.Sprintf("duty %d/%d waits for its deadline although the beacon node assigned nothing", s, int(ty)))
+				}
+				run.Case(fmt.Sprintf("complete:%d:%d:%d:parked", int(ty), len(exp), s%e.spe))
+				parkedNow[0].exp, parkedNow[0].expOK = exp, true
+				continue
 			}
 			if len(exp) == 0 {
 				if got != nil {
@@ -872,16 +1190,22 @@ func sameAnswers(a, b *session) bool {
 }
 
 // pump lets the real ticker goroutine run until it is parked on the fake clock again, handling every
-// slot it emits.
-func (e *episode) pump(run *hx.Run, out *[]string) {
-	base := runtime.NumGoroutine()
+// slot it emits (and, if eager, letting every parked attester trigger that is due proceed after each slot).
+func (e *episode) pump(run *hx.Run, out *[]string, eager bool) {
+	e.setBase()
 	deadline := time.Now().Add(10 * time.Second)
 	cancelled, cancel := context.WithCancel(context.Background())
 	cancel()
+	one := func(slot core.Slot) {
+		*out = append(*out, e.handle(run, slot))
+		if eager {
+			e.fireDue(run, out)
+		}
+	}
 	for {
 		select {
 		case slot := <-e.ticker:
-			*out = append(*out, e.handle(run, slot, base))
+			one(slot)
 			continue
 		default:
 		}
@@ -889,7 +1213,7 @@ func (e *episode) pump(run *hx.Run, out *[]string) {
 			// parked with a timer in the future; a slot sent before parking has been received above
 			select {
 			case slot := <-e.ticker:
-				*out = append(*out, e.handle(run, slot, base))
+				one(slot)
 				continue
 			default:
 			}
@@ -903,7 +1227,106 @@ func (e *episode) pump(run *hx.Run, out *[]string) {
 	}
 }
 
-func (e *episode) doAdv(run *hx.Run, ns int64) string {
+// fireDue lets every parked attester trigger whose deadline the fake clock has reached proceed, oldest first.
+func (e *episode) fireDue(run *hx.Run, out *[]string) {
+	now := e.nowNs()
+	e.mu.Lock()
+	var due []*parkedTrig
+	for _, p := range e.pend {
+		if p.dl <= now {
+			due = append(due, p)
+		}
+	}
+	e.mu.Unlock()
+	for _, p := range due {
+		*out = append(*out, e.fireOne(run, p))
+	}
+}
+
+// fireOne: the timer of a parked attester trigger fires; the goroutine stores its entry and calls the subscribers.
+func (e *episode) fireOne(run *hx.Run, p *parkedTrig) string {
+	e.mu.Lock()
+	for i, q := range e.pend {
+		if q == p {
+			e.pend = append(e.pend[:i:i], e.pend[i+1:]...)
+			break
+		}
+	}
+	e.trigs = nil
+	e.curFire = p
+	e.mu.Unlock()
+	p.ch <- e.clock.Now()
+	e.settle()
+	for patience := time.Now().Add(200 * time.Millisecond); time.Now().Before(patience); {
+		e.mu.Lock()
+		n := len(e.trigs)
+		e.mu.Unlock()
+		if n > 0 {
+			break
+		}
+		time.Sleep(50 * time.Microsecond)
+		e.settle()
+	}
+	e.flushNotes(run)
+	e.mu.Lock()
+	trigs := append([]trig(nil), e.trigs...)
+	e.curFire = nil
+	e.mu.Unlock()
+	run.Count("fire")
+	now := e.nowNs()
+	slotStart := int64(p.slot) * e.dur.Nanoseconds()
+	if now < p.dl {
+		run.Violate("sched:delivered_before_deadline", fmt.Sprintf("attester duty of slot %d proceeds at %d, deadline %d", p.slot, now, p.dl))
+	}
+	var got *trig
+	for i := range trigs {
+		t := &trigs[i]
+		if t.duty.Slot == p.slot && t.duty.Type == core.DutyAttester && got == nil {
+			got = t
+			continue
+		}
+		run.Violate("sched:unexpected_duty_after_wait", fmt.Sprintf("duty %v delivered when the attester trigger of slot %d proceeded", t.duty, p.slot))
+	}
+	if got == nil {
+		run.Violate("sched:parked_trigger_lost", fmt.Sprintf("the attester trigger of slot %d waited for its deadline and then delivered nothing", p.slot))
+		return fmt.Sprintf("f%d[]", p.slot)
+	}
+	if e.seen[got.duty] {
+		run.Violate("sched:duty_triggered_twice", fmt.Sprintf("duty %v triggered again after its wait", got.duty))
+	}
+	e.seen[got.duty] = true
+	e.deliveredAtt[p.slot] = true
+	e.checkTrig(run, *got, slotStart, "")
+	if p.expOK {
+		same := len(got.defs) == len(p.exp)
+		for pk, d := range got.defs {
+			ok := false
+			for _, it := range p.exp[corePkID(pk)] {
+				if e.sameAsBN(d, it) {
+					ok = true
+				}
+			}
+			if !ok {
+				same = false
+			}
+		}
+		if !same {
+			run.Violate("sched:defset_differs_from_bn", fmt.Sprintf("duty %d/2 (delivered after its wait): definition set %s differs from the beacon node's assignments (%d validators)", p.slot, trigStr(*got), len(p.exp)))
+		}
+	}
+	found := false
+	for _, k := range e.sched.EventTriggeredVerif() {
+		if k == p.slot {
+			found = true
+		}
+	}
+	if !found {
+		run.Violate("sched:own_trigger_not_recorded", fmt.Sprintf("attester duty of slot %d delivered but eventTriggeredAttestations has no entry: a later head event would start an early fetch", p.slot))
+	}
+	return fmt.Sprintf("f%d[%s]", p.slot, trigStr(*got))
+}
+
+func (e *episode) doAdv(run *hx.Run, ns int64, eager bool) string {
 	var out []string
 	if e.ticker == nil {
 		ctx, cancel := context.WithCancel(context.Background())
@@ -912,10 +1335,14 @@ func (e *episode) doAdv(run *hx.Run, ns int64) string {
 		t, err := scheduler.NewSlotTickerVerif(ctx, e.mock, e.clock)
 		hx.Must(err)
 		e.ticker = t
-		e.pump(run, &out)
+		e.pump(run, &out, eager)
 	}
 	e.clock.Advance(time.Duration(ns))
-	e.pump(run, &out)
+	if eager {
+		e.setBase()
+		e.fireDue(run, &out)
+	}
+	e.pump(run, &out, eager)
 	run.Count(fmt.Sprintf("adv:ticks=%d", len(out)))
 	res := "-"
 	if len(out) > 0 {
@@ -924,13 +1351,267 @@ func (e *episode) doAdv(run *hx.Run, ns int64) string {
 	return res + " | " + e.digest()
 }
 
+func (e *episode) doFire(run *hx.Run, slot uint64) string {
+	e.setBase()
+	now := e.nowNs()
+	var p *parkedTrig
+	for _, q := range e.pend {
+		if q.slot == slot && q.dl <= now && p == nil {
+			p = q
+		}
+	}
+	res := "-"
+	if p != nil {
+		res = e.fireOne(run, p)
+	} else {
+		run.Count("fire:none")
+	}
+	return res + " | " + e.digest()
+}
+
+// doHead: an SSE head event.
+func (e *episode) doHead(run *hx.Run, slot, root uint64, addr string) string {
+	e.setBase()
+	e.mu.Lock()
+	e.fetches = nil
+	e.mu.Unlock()
+	keysBefore := map[uint64]bool{}
+	for _, k := range e.sched.EventTriggeredVerif() {
+		keysBefore[k] = true
+	}
+	stored, hasDefs := e.sched.SnapshotVerif().Defs[core.NewAttesterDuty(slot)]
+	var r eth2p0.Root
+	binary.BigEndian.PutUint64(r[24:], root)
+	e.sched.HandleHeadEvent(context.Background(), eth2p0.Slot(slot), r, addr)
+	e.settle()
+	e.flushNotes(run)
+	e.mu.Lock()
+	fetches := append([]fetchRec(nil), e.fetches...)
+	e.mu.Unlock()
+
+	rel := "cur"
+	switch {
+	case e.lastTick < 0:
+		rel = "start"
+	case int64(slot) < e.lastTick:
+		rel = "past"
+	case int64(slot) > e.lastTick:
+		rel = "future"
+	}
+	run.Case(fmt.Sprintf("head:%s:%v:%v:%d", rel, hasDefs, keysBefore[slot], len(fetches)))
+	if len(fetches) == 0 {
+		run.Count("head:ignored")
+	} else {
+		run.Count("head:early_fetch")
+	}
+	if len(fetches) > 1 {
+		run.Violate("sched:early_fetch_twice", fmt.Sprintf("one head event for slot %d started %d early fetches", slot, len(fetches)))
+	}
+	var parts []string
+	for _, f := range fetches {
+		if !e.flagsOn() {
+			run.Violate("sched:early_fetch_flags_off", fmt.Sprintf("early fetch for %v although FetchAttOnBlock and FetchAttOnBlockWithDelay are off", f.duty))
+		}
+		if f.duty.Type != core.DutyAttester || f.duty.Slot != slot {
+			run.Violate("sched:early_fetch_wrong_duty", fmt.Sprintf("head event for slot %d started an early fetch for %v", slot, f.duty))
+		}
+		if f.root != r || f.addr != addr {
+			run.Violate("sched:early_fetch_args_altered", fmt.Sprintf("head event (%x, %s) reached the fetcher as (%x, %s)", r[24:], addr, f.root[24:], f.addr))
+		}
+		if !hasDefs {
+			run.Violate("sched:early_fetch_unassigned_duty", fmt.Sprintf("early fetch for slot %d although no attester definition is stored for it (unresolved epoch or no assignment)", slot))
+		} else if defsStr(stored) != defsStr(f.defs) {
+			run.Violate("sched:early_fetch_defset_differs", fmt.Sprintf("early fetch for slot %d with %s, stored %s", slot, defsStr(f.defs), defsStr(stored)))
+		}
+		e.checkTrig(run, trig{duty: core.NewAttesterDuty(f.duty.Slot), defs: f.defs, nb: 1<<63 - 1}, 0, "early_fetch_")
+		// at most one early fetch per slot, none after the slot's own trigger — unless the entry was trimmed: by an
+		// effective reorg event (fetched/deliveredAtt are reset there) or by the resolution of an epoch at least
+		// three after the slot's
+		recent := e.lastTick < 0 || slot/e.spe+3 > (uint64(e.lastTick)+1)/e.spe
+		if recent && e.fetched[slot] {
+			run.Violate("sched:early_fetch_twice_same_slot", fmt.Sprintf("second early fetch for slot %d", slot))
+		}
+		if recent && e.deliveredAtt[slot] {
+			run.Violate("sched:early_fetch_after_own_trigger", fmt.Sprintf("early fetch for slot %d after its attester duty was triggered", slot))
+		}
+		if keysBefore[slot] {
+			run.Violate("sched:early_fetch_despite_entry", fmt.Sprintf("early fetch for slot %d although eventTriggeredAttestations had an entry", slot))
+		}
+		e.fetched[slot] = true
+		found := false
+		for _, k := range e.sched.EventTriggeredVerif() {
+			if k == slot {
+				found = true
+			}
+		}
+		if !found {
+			run.Violate("sched:early_fetch_not_recorded", fmt.Sprintf("early fetch for slot %d left no entry in eventTriggeredAttestations", slot))
+		}
+		parts = append(parts, fmt.Sprintf("F%d@%d/%s%s", f.duty.Slot, binary.BigEndian.Uint64(f.root[24:]), f.addr, defsStr(f.defs)))
+	}
+	res := "-"
+	if len(parts) > 0 {
+		res = strings.Join(parts, " ")
+	}
+	return res + " | " + e.digest()
+}
+
+// ---------- GetDutyDefinition ----------
+
+func curGoid() int64 {
+	var buf [64]byte
+	n := runtime.Stack(buf[:], false)
+	f := strings.Fields(string(buf[:n]))
+	id, err := strconv.ParseInt(f[1], 10, 64)
+	hx.Must(err)
+	return id
+}
+
+var stackBuf = make([]byte, 1<<18)
+
+// goState returns the wait state of one goroutine ("" if it is gone) from a stop-the-world snapshot.
+func goState(goid int64) string {
+	var b []byte
+	for {
+		n := runtime.Stack(stackBuf, true)
+		if n < len(stackBuf) {
+			b = stackBuf[:n]
+			break
+		}
+		stackBuf = make([]byte, 2*len(stackBuf))
+	}
+	hdr := []byte(fmt.Sprintf("goroutine %d [", goid))
+	i := bytes.Index(b, hdr)
+	if i < 0 {
+		return ""
+	}
+	rest := b[i+len(hdr):]
+	j := bytes.IndexByte(rest, ']')
+	if j < 0 {
+		return ""
+	}
+	st := string(rest[:j])
+	if c := strings.IndexByte(st, ','); c >= 0 {
+		st = st[:c]
+	}
+	return st
+}
+
+func (e *episode) classifyGetDef(set core.DutyDefinitionSet, err error) string {
+	switch {
+	case err == nil:
+		return "ok" + defsStr(set)
+	case errors.Is(err, core.ErrDeprecatedDutyBuilderProposer):
+		return "deprecated"
+	case errors.Is(err, core.ErrNotFound):
+		return "notfound"
+	case errors.Is(err, context.Canceled):
+		return "blocked"
+	case strings.Contains(err.Error(), "epoch not resolved yet"):
+		return "unresolved"
+	case strings.Contains(err.Error(), "epoch already trimmed"):
+		return "trimmed"
+	}
+	return "error:" + err.Error()
+}
+
+// startGetDef calls GetDutyDefinition in its own goroutine and returns once it has answered or is parked on
+// the epoch-resolved channel.
+func (e *episode) startGetDef(duty core.Duty) *probeState {
+	ctx, cancel := context.WithCancel(context.Background())
+	ps := &probeState{cancel: cancel, res: make(chan string, 1)}
+	idc := make(chan int64, 1)
+	go func() {
+		idc <- curGoid()
+		set, err := e.sched.GetDutyDefinition(ctx, duty)
+		ps.res <- e.classifyGetDef(set, err)
+	}()
+	ps.goid = <-idc
+	e.pollGetDef(ps)
+	return ps
+}
+
+// pollGetDef waits until the call has answered (done) or is parked in its select.
+func (e *episode) pollGetDef(ps *probeState) {
+	deadline := time.Now().Add(10 * time.Second)
+	for !ps.done {
+		select {
+		case ps.out = <-ps.res:
+			ps.done = true
+			return
+		default:
+		}
+		if strings.HasPrefix(goState(ps.goid), "select") {
+			// parked — unless the answer arrived in between
+			select {
+			case ps.out = <-ps.res:
+				ps.done = true
+			default:
+			}
+			return
+		}
+		if time.Now().After(deadline) {
+			panic("GetDutyDefinition neither answered nor parked")
+		}
+		runtime.Gosched()
+	}
+}
+
+// endGetDef: a call still parked is blocked for good as far as this resolution goes: its context is cancelled.
+func (e *episode) endGetDef(ps *probeState) string {
+	e.pollGetDef(ps)
+	if !ps.done {
+		ps.cancel()
+		ps.out = <-ps.res
+		ps.done = true
+	}
+	ps.cancel()
+	// the goroutine must be gone before goroutines are counted again
+	for deadline := time.Now().Add(2 * time.Second); goState(ps.goid) != "" && time.Now().Before(deadline); {
+		runtime.Gosched()
+	}
+	return ps.out
+}
+
+func (e *episode) doGetDef(run *hx.Run, slot uint64, ty int) string {
+	ps := e.startGetDef(core.Duty{Slot: slot, Type: core.DutyType(ty)})
+	out := e.endGetDef(ps)
+	run.Case("getdef:" + strings.SplitN(out, "{", 2)[0])
+	return out
+}
+
+// closeProbe settles the probe made during the resolveDuties invocation that just ended (if any).
+func (e *episode) closeProbe() {
+	if e.probe == nil {
+		return
+	}
+	e.probeOut = e.endGetDef(e.probe)
+	e.probe = nil
+}
+
+func (e *episode) finishProbe() string {
+	e.closeProbe()
+	out := e.probeOut
+	e.probeOut = ""
+	return out
+}
+
 func (e *episode) doReorg(run *hx.Run, ep uint64) string {
-	before := e.sched.SnapshotVerif().ResolvedEpoch
+	snBefore := e.sched.SnapshotVerif()
+	keysBefore := e.sched.EventTriggeredVerif()
+	before := snBefore.ResolvedEpoch
 	e.sched.HandleChainReorgEvent(context.Background(), eth2p0.Epoch(ep))
-	e.checkAltered(run, e.sched.SnapshotVerif())
+	snAfter := e.sched.SnapshotVerif()
+	e.checkAltered(run, snAfter)
+	if e.flagsOn() {
+		e.checkBookkeeping(run, snBefore, snAfter, keysBefore, fmt.Sprintf("reorg event %d", ep))
+	} else if len(e.sched.EventTriggeredVerif()) > 0 {
+		run.Violate("sched:event_bookkeeping_flags_off", "eventTriggeredAttestations has entries although both flags are off")
+	}
 	if e.reorgOn && ep < before {
 		// the scheduler dropped what it had resolved; the monitors' resolution record is void
 		e.res = map[uint64]*resolved{}
+		e.fetched, e.deliveredAtt = map[uint64]bool{}, map[uint64]bool{}
 		run.Count("reorg:effective")
 	} else {
 		run.Count("reorg:ignored")
@@ -1018,9 +1699,14 @@ func main() {
 		switch f[0] {
 		case "cfg":
 			if ep != nil {
-				ep.cancel()
+				ep.close()
 			}
-			ep = newEpisode(int(u64(f[1])), int64(u64(f[2])), int64(u64(f[3])), f[4] != "0")
+			flags := 0
+			if len(f) > 5 {
+				flags = int(u64(f[5]))
+			}
+			ep = newEpisode(int(u64(f[1])), int64(u64(f[2])), int64(u64(f[3])), f[4] != "0", flags)
+			run.Count(fmt.Sprintf("cfg:flags=%d", flags))
 			run.Count("cfg")
 			run.Op(op, "ok")
 		case "val":
@@ -1064,7 +1750,23 @@ func main() {
 			run.Count("fail:" + f[1])
 			run.Op(op, "ok")
 		case "adv":
-			run.Op(op, ep.doAdv(run, int64(u64(f[1]))))
+			run.Op(op, ep.doAdv(run, int64(u64(f[1])), true))
+		case "advl":
+			run.Op(op, ep.doAdv(run, int64(u64(f[1])), false))
+		case "fire":
+			run.Op(op, ep.doFire(run, u64(f[1])))
+		case "head":
+			run.Op(op, ep.doHead(run, u64(f[1]), u64(f[2]), f[3]))
+		case "getdef":
+			run.Op(op, ep.doGetDef(run, u64(f[1]), int(u64(f[2]))))
+		case "probe":
+			d := core.Duty{Slot: u64(f[1]), Type: core.DutyType(u64(f[2]))}
+			ep.probeArmed, ep.probeSkip = &d, 0
+			if len(f) > 3 {
+				ep.probeSkip = int(u64(f[3]))
+			}
+			run.Count("probe")
+			run.Op(op, "ok")
 		case "reorg":
 			run.Op(op, ep.doReorg(run, u64(f[1])))
 		default:
@@ -1076,7 +1778,7 @@ func main() {
 			exec(op)
 		}
 		if ep != nil {
-			ep.cancel()
+			ep.close()
 		}
 		return
 	}
@@ -1085,7 +1787,7 @@ func main() {
 		generateEpisode(rng, run, exec, func() *episode { return ep })
 	}
 	if ep != nil {
-		ep.cancel()
+		ep.close()
 	}
 }
 
@@ -1112,7 +1814,61 @@ func generateEpisode(rng *hx.Rng, run *hx.Run, exec func(string), cur func() *ep
 		within = int64(rng.Intn(int(durMs))) * 1000000
 	}
 	reorgOn := !rng.Chance(1, 8)
-	exec(fmt.Sprintf("cfg %d %d %d %d", spe, durMs, startSlot*durNs+within, b2i(reorgOn)))
+	// head-event path: half of the episodes run with FetchAttOnBlock and/or FetchAttOnBlockWithDelay
+	flags := 0
+	if rng.Chance(1, 2) {
+		flags = 1 + rng.Intn(3)
+		if rng.Chance(1, 25) {
+			flags += 4 // no fetch-only function registered
+		}
+	}
+	if flags == 0 {
+		exec(fmt.Sprintf("cfg %d %d %d %d", spe, durMs, startSlot*durNs+within, b2i(reorgOn)))
+	} else {
+		exec(fmt.Sprintf("cfg %d %d %d %d %d", spe, durMs, startSlot*durNs+within, b2i(reorgOn), flags))
+	}
+	flagsOn := flags&3 != 0
+	attDeadline := durNs / 3
+	if flags&2 != 0 {
+		attDeadline += 300000000
+	}
+	headSeq := 0
+	head := func(slot int64) {
+		if slot < 0 {
+			slot = 0
+		}
+		headSeq++
+		exec(fmt.Sprintf("head %d %d bn%d", slot, headSeq, rng.Intn(3)))
+		if rng.Chance(1, 5) { // the same event from a second beacon node
+			headSeq++
+			exec(fmt.Sprintf("head %d %d bn%d", slot, headSeq, rng.Intn(3)))
+		}
+	}
+	// a head event for a slot chosen relative to the current one
+	headAround := func(now int64) {
+		cur := now / durNs
+		ep0 := cur / int64(spe) * int64(spe)
+		switch rng.Intn(14) {
+		case 0, 1, 2, 3:
+			head(cur)
+		case 4, 5:
+			head(cur + 1) // before the slot starts
+		case 6:
+			head(cur - 1)
+		case 7:
+			head(cur + int64(spe)) // next epoch: resolved only from the last slot on
+		case 8:
+			head(cur - int64(rng.Intn(4*spe)))
+		case 9:
+			head(cur + 1 + int64(rng.Intn(2*spe)))
+		case 10, 11:
+			head(ep0 + int64(rng.Intn(spe)))
+		case 12:
+			head(ep0 + int64(spe) + int64(rng.Intn(spe)))
+		default:
+			head(ep0 - 1 - int64(rng.Intn(3*spe)))
+		}
+	}
 	startEpoch := uint64(startSlot) / uint64(spe)
 	nEpochs := uint64(4 + rng.Intn(2))
 
@@ -1320,7 +2076,74 @@ func generateEpisode(rng *hx.Rng, run *hx.Run, exec func(string), cur func() *ep
 			if re < 0 {
 				re = 0
 			}
+			if flagsOn && rng.Chance(1, 2) {
+				headAround(now) // an early fetch just before the reorg event …
+			}
 			exec(fmt.Sprintf("reorg %d", re))
+			if flagsOn && rng.Chance(1, 2) {
+				headAround(now) // … and a head event between the reorg event and the next slot
+			}
+		}
+		// GetDutyDefinition, also from inside the next resolution
+		if rng.Chance(1, 7) {
+			sl := now/durNs + int64(rng.Intn(3*spe)) - int64(spe)
+			if sl < 0 {
+				sl = 0
+			}
+			exec(fmt.Sprintf("getdef %d %d", sl, []int{1, 2, 2, 3, 5, 9, 12}[rng.Intn(7)]))
+		}
+		if rng.Chance(1, 9) {
+			sl := now/durNs + 1 + int64(rng.Intn(2*spe))
+			if k := []int{0, 0, 0, 1, 1, 2, 3}[rng.Intn(7)]; k == 0 {
+				exec(fmt.Sprintf("probe %d %d", sl, []int{2, 2, 1, 5, 12}[rng.Intn(5)]))
+			} else { // reaches the repeated resolution of the next epoch in the last slot of an epoch
+				exec(fmt.Sprintf("probe %d %d %d", sl, []int{2, 2, 1, 12}[rng.Intn(4)], k))
+			}
+		}
+		// head events (with the flags off they must be ignored)
+		if !first && ((flagsOn && rng.Chance(1, 2)) || (!flagsOn && rng.Chance(1, 12))) {
+			headAround(now)
+		}
+		// walk through the current slot: before the attester deadline, one tick before it, at it, after it
+		if flagsOn && !first && rng.Chance(1, 3) {
+			cur := now / durNs
+			in := now - cur*durNs
+			if in < attDeadline {
+				if rng.Chance(1, 2) {
+					head(cur)
+				}
+				lazy := rng.Chance(1, 4)
+				if d := attDeadline - 1 - in; d > 0 {
+					exec(fmt.Sprintf("adv %d", d))
+					now += d
+					if rng.Chance(1, 2) {
+						head(cur)
+					}
+				}
+				d := attDeadline - (now - cur*durNs)
+				if lazy {
+					// the timer is due but the goroutine has not run yet
+					d += int64(rng.Intn(1000))
+					exec(fmt.Sprintf("advl %d", d))
+					now += d
+					if rng.Chance(2, 3) {
+						head(cur)
+					}
+					if rng.Chance(3, 4) {
+						exec(fmt.Sprintf("fire %d", cur))
+					} else if rng.Chance(1, 2) {
+						exec(fmt.Sprintf("fire %d", cur+1)) // nothing parked for that slot
+					}
+				} else {
+					exec(fmt.Sprintf("adv %d", d))
+					now += d
+				}
+				if rng.Chance(2, 3) {
+					head(cur) // after the slot's own trigger
+				}
+			} else if rng.Chance(1, 2) {
+				head(cur)
+			}
 		}
 		// clock
 		curSlot := now / durNs
@@ -1351,7 +2174,11 @@ func generateEpisode(rng *hx.Rng, run *hx.Run, exec func(string), cur func() *ep
 			d = 1
 		}
 		first = false
-		exec(fmt.Sprintf("adv %d", d))
+		if flagsOn && rng.Chance(1, 12) {
+			exec(fmt.Sprintf("advl %d", d)) // attester triggers that become due stay parked until a later adv / fire
+		} else {
+			exec(fmt.Sprintf("adv %d", d))
+		}
 		now += d
 		_ = ep
 	}
